@@ -46,6 +46,9 @@ def const_fold(n):
 # window / offset bookkeeping (C17), reported as C15.matcher
 INCLUDES = [
     ("c17", "C15.matcher", None, 20),
+    # a literals section's stated sizes match its content only if the streams are measured per stream and a reused
+    # (treeless) table has a code for every symbol
+    ("c13", "C15.huffman", {"rules": ("C13.dom.reuse-covers-symbols", "C13.layout.streams")}, 8),
 ]
 
 
